@@ -257,13 +257,19 @@ func (SendReqScenario) Execute(sim *sched.Sim, ci interface{}, prop string, race
 	for i := range cbs {
 		i := i
 		cbs[i] = func(d time.Duration) {
+			if t := sim.Current(); t == nil || t.Name != "requester" {
+				// called from a goroutine of its own, which is the
+				// library's business as long as the notification is
+				// complete when SendRequest returns: the goroutine is a
+				// task of the run, released at a moment of the tape's
+				// choosing (before simulated time passes, see below)
+				extMu.Lock()
+				foreignCB++
+				extMu.Unlock()
+				sim.Yield("cb.foreign", strconv.Itoa(i))
+			}
 			extMu.Lock()
 			exts[i] = append(exts[i], d)
-			if t := sim.Current(); t == nil || t.Name != "requester" {
-				// told from a goroutine of its own: nothing orders the
-				// notification before the return of SendRequest any more
-				foreignCB++
-			}
 			extMu.Unlock()
 			if c.SlowCBMs > 0 {
 				sim.Probe("slow extension callback")
@@ -329,9 +335,20 @@ func (SendReqScenario) Execute(sim *sched.Sim, ci interface{}, prop string, race
 	if task.IsParked() && task.Point == "conn.Published" {
 		sim.Decide(nil)
 	}
+	// extension callbacks running on goroutines of their own are held at
+	// their entry; they are let go before simulated time passes (so that the
+	// reference timing stays exact) and otherwise when the tape says so: a
+	// message that follows in the same instant may overtake them
+	releaseCBs := func() {
+		for sim.Decide(func(t *sched.Task) bool { return t.Point == "cb.foreign" }) {
+		}
+	}
 	var slept time.Duration
 	for ; i < len(c.Msgs); i++ {
 		d := time.Duration(c.Msgs[i].DelayMs) * time.Millisecond
+		if d > 0 || sim.Tape.Choose(2) == 0 {
+			releaseCBs()
+		}
 		if d > 0 {
 			time.Sleep(d)
 			slept += d
@@ -340,6 +357,7 @@ func (SendReqScenario) Execute(sim *sched.Sim, ci interface{}, prop string, race
 		deliver(c.Msgs[i])
 		sim.Wait()
 	}
+	releaseCBs()
 	for k := 0; k < 80 && !(task.IsParked() && task.Point == "call.return") && !task.IsDone(); k++ {
 		time.Sleep(time.Second)
 		slept += time.Second
@@ -403,7 +421,7 @@ func (SendReqScenario) Execute(sim *sched.Sim, ci interface{}, prop string, race
 		fcb := foreignCB
 		extMu.Unlock()
 		if fcb > 0 {
-			h.Violate("C19", "extension-callbacks", "other-goroutine", fmt.Sprintf("%d extension callbacks were called from a goroutine other than the one in SendRequest, so they are not ordered before its return; %s", fcb, desc))
+			sim.Probe("extension callback on a goroutine of its own")
 		}
 		if !extOK && ok {
 			h.Violate("C19", "extension-callbacks", "", fmt.Sprintf("callbacks got %v, expected %v each; %s", exts, want.Ext, desc))
